@@ -18,7 +18,10 @@ ASSUMPTIONS = ['CPython: str(type(x)) names, native < on str/float/datetime/bool
                'implementation sees the real objects; the model reads TS: as the datetime cell (cmp ranks a Timestamp with the datetimes since fix 7a44481); np.str_ has no model cell '
                '(cmp ranks it apart from str, pinned by the repository test_cmp) and takes part in the implementation-only laws',
                'the op `native` compares the as_primitive images natively (these are the values sort() hands to sorted() as keys)',
-               'object identity (x is y shortcut) is not modelled; fresh and shared NaN objects are both generated']
+               'object identity (x is y shortcut) is not modelled; fresh and shared NaN objects are both generated',
+               'the missing date: pd.NaT (wire NAT) and np.datetime64(\'NaT\') (wire NAT64, a fresh object per decode) are one value of the model (ValN.nat, '
+               'cmpNaT) when they are one of the two values compared; inside a list / tuple / dict they are outside the model: sort / dictable.sort with '
+               'NaT are checked by the implementation-only laws (every pair of the output under the implementation\'s own cmp)']
 
 D = datetime.datetime
 TS = pd.Timestamp
